@@ -35,6 +35,12 @@ def cmp_fn(ctx, construct, rel, qual, spec_src, opts=None, holes=None, name=None
     def go():
         got = ctx.fn_term(rel, qual, opts=opts, **kw)
         exp = ctx.spec_term(spec_src, opts=opts, name=name, **kw)
+        if got != exp and 'call_hook' not in kw:
+            # helpers extracted from the function (calls the specification never makes): inline the simple pure ones first
+            g0 = _inline_new_helpers(ctx, rel, qual, got, exp, opts, kw)
+            if g0 is not None and g0 != got:
+                ctx.notes.setdefault('extracted helpers inlined', []).append(construct)
+                got = g0
         if holes is not None:
             b = {}
             if unify(exp, got, b):
@@ -60,6 +66,49 @@ def cmp_fn(ctx, construct, rel, qual, spec_src, opts=None, holes=None, name=None
                     return ctx.ok(construct, where=where)
         return ctx.same_term(construct, got, exp, where=where)
     return ctx.guard(construct, go, where=where)
+
+
+def _inline_new_helpers(ctx, rel, qual, got, exp, opts, kw):
+    """Re-summarise rel::qual with calls to same-module functions / same-class methods that the specification term
+    never calls replaced by their (single-return, effect-free) bodies.  Returns the new term or None."""
+    def calls(t):
+        gs, ms = set(), set()
+        for x in T.walk(t):
+            if x[0] == 'call':
+                f = x[1]
+                if f[0] == 'g':
+                    gs.add(f[1])
+                elif f[0] == 'attr' and f[1] == A(0):
+                    ms.add(f[2])
+        return gs, ms
+    gg, gm = calls(got)
+    eg, em = calls(exp)
+    m = ctx.repo.module(rel)
+    gfuncs = {}
+    for name in gg - eg:
+        r = ctx.repo.resolve_name(rel, name)
+        if r and r[1] and r[0] in ctx.repo.modules and r[1] in ctx.repo.modules[r[0]].functions:
+            gfuncs[name] = ctx.repo.modules[r[0]].functions[r[1]]
+    mfuncs = {}
+    if '.' in qual:
+        cname = qual.split('.')[0]
+        for name in gm - em:
+            fm = ctx.repo.find_method(rel, cname, name)
+            if fm:
+                mfuncs[name] = ctx.repo.modules[fm[0]].functions[fm[1]]
+    if not gfuncs and not mfuncs:
+        return None
+
+    def hook(pe, f, args, kwargs, env, node):
+        if f[0] == 'g' and f[1] in gfuncs:
+            return pe.inline_call(gfuncs[f[1]], args, kwargs, env)
+        if f[0] == 'attr' and f[1] == A(0) and f[2] in mfuncs:
+            return pe.inline_call(mfuncs[f[2]], (f[1],) + tuple(args), kwargs, env)
+        return None
+    try:
+        return ctx.fn_term(rel, qual, opts=opts, call_hook=hook, **kw)
+    except (T.Unsupported, RecursionError):
+        return None
 
 
 def cmp_many(ctx, rel, table, opts=None, prefix=''):
